@@ -205,6 +205,23 @@ def check_2d(ctx, s1, p1, s2, p2, rng, stats):
                     ctx.violation({"kind": "value-2d", "entry": ep.split("(")[0], "der": [d1, d2], "path": "cu" if b1.cubic_uniform else "general"},
                                   "%s (der %d,%d) differs from the exact tensor-product value by %g; spaces %s x %s" % (ep, d1, d2, err, s1.key(), s2.key()),
                                   {"spaces": [s1.key(), s2.key()], "coeffs": c.tolist(), "der": [d1, d2]})
+    # tensor-grid entry points with degenerate / unsorted second arguments (a single x2 value, x2 inside one cell, shuffled x2):
+    # every grid entry must be the value at its own (x1, x2), whatever was evaluated before it
+    xa = np.array(x1)
+    for xb in (np.array([x2[len(x2) // 2]]), np.array([x2[1], x2[1] + 1e-3 * (x2[2] - x2[1])]), np.array(rng.sample(list(x2), len(x2)))):
+        qb = [min(max(so.to_int_coord(x, -1.0, 2.0), Fr(s2.br[0])), Fr(s2.br[-1])) for x in xb]
+        B1 = np.array([[float(s1.basis(i, x, 0)) for i in range(s1.nb)] for x in q1])
+        B2 = np.array([[float(s2.basis(j, x, 0)) for j in range(s2.nb)] for x in qb])
+        want = B1 @ c @ B2.T
+        g1 = S.eval(xa.copy(), xb.copy())
+        g3 = np.full((len(xa), len(xb)), np.nan)
+        S.eval_vector(xa.copy(), xb.copy(), g3)
+        for ep, g in (("Spline2D.eval(grid)", g1), ("Spline2D.eval_vector", g3)):
+            err = float(np.max(np.abs(g - want)))
+            if not err <= 1e-9 * max(1.0, float(np.max(np.abs(c)))) * 40:
+                ctx.violation({"kind": "value-2d", "entry": ep.split("(")[0], "der": [0, 0], "path": "cu" if b1.cubic_uniform else "general", "x2": "degenerate-or-unsorted"},
+                              "%s on a grid with %d x2 point(s) %s differs from the exact tensor-product value by %g; spaces %s x %s" % (
+                                  ep, len(xb), xb.tolist(), err, s1.key(), s2.key()), {"spaces": [s1.key(), s2.key()], "x2": xb.tolist()})
     ctx.count(("2d", s1.key(), p1, s2.key(), p2))
 
 
